@@ -11,7 +11,7 @@ import (
 func init() { props["C27"] = checkC27 }
 
 func checkC27(r *Run) {
-	r.Explain = "C27: (R1) every route is registered through webHandlerWithOptionals — the only caller of mux.Handle — whose handler composition is Elapsed -> CORS -> [CSRF check] -> [origin/referer + host check] -> [JSON content type for v2] -> basic auth -> gzip, with CSRF checking off only for /api/v1/csrf and header checks following the configuration; (R2) the extracted table (path, method -> API sets, csrf) equals the reviewed reference table, and the README's 'API sets' lines are compared (differences reported); (R3) each middleware reaches the wrapped handler only under its documented condition (method served and an enabled API set; token verified for POST/PUT/DELETE unless disabled; host whitelisted; origin checked when present, referer only when origin is empty; exact credentials); token verification requires two parts, equal signature, not expired; (R4) credentials are compared separately, not as a hash of their concatenation; (R5) 'a new token invalidates earlier ones' needs state written on issue and read on verify."
+	r.Explain = "(R3+) the CSRF signing secret is written once, by package initialisation, from at least 32 random bytes (never lazily); C27: (R1) every route is registered through webHandlerWithOptionals — the only caller of mux.Handle — whose handler composition is Elapsed -> CORS -> [CSRF check] -> [origin/referer + host check] -> [JSON content type for v2] -> basic auth -> gzip, with CSRF checking off only for /api/v1/csrf and header checks following the configuration; (R2) the extracted table (path, method -> API sets, csrf) equals the reviewed reference table, and the README's 'API sets' lines are compared (differences reported); (R3) each middleware reaches the wrapped handler only under its documented condition (method served and an enabled API set; token verified for POST/PUT/DELETE unless disabled; host whitelisted; origin checked when present, referer only when origin is empty; exact credentials); token verification requires two parts, equal signature, not expired; (R4) credentials are compared separately, not as a hash of their concatenation; (R5) 'a new token invalidates earlier ones' needs state written on issue and read on verify."
 	r.NotDec = "status codes and bodies of concrete requests; TLS/transport"
 	// R1
 	whwo := r.P.ClosureByVar("api.newServerMux", "webHandlerWithOptionals")
@@ -196,6 +196,36 @@ func checkC27(r *Run) {
 		req("signature equals HMAC(secret, payload)", "base64.Encoding.EncodeToString(base64.RawURLEncoding, iface:hash.Hash.Sum(hmac.New(sha256.New, api.csrfSecretKey), nil)) == "+tp+"[1]"),
 		req("payload parses", "ok(json.Unmarshal(*))"),
 		req("not expired", "!time.Time.After(time.Now(), *ExpiresAt)"))
+	// the signing secret exists before any request can be verified: it is written by package initialisation
+	// only (never lazily, never again), from the random source, with a fixed non-trivial length
+	nW := 0
+	for _, fn := range r.P.ModFns {
+		ff := r.P.Facts(fn)
+		for _, b := range fn.Blocks {
+			for _, in := range b.Instrs {
+				st, ok := in.(*ssa.Store)
+				if !ok {
+					continue
+				}
+				g, ok := st.Addr.(*ssa.Global)
+				if !ok || g.Name() != "csrfSecretKey" || g.Pkg.Pkg.Name() != "api" {
+					continue
+				}
+				nW++
+				isInit := strings.HasPrefix(fn.Name(), "init") && fn.Parent() == nil && fn.Signature.Recv() == nil && fn.Signature.Params().Len() == 0
+				t := ff.Term(st.Val)
+				okLen := false
+				if m := globCapture("cipher.RandByte(*)", t); m != nil {
+					var n int
+					fmt.Sscanf(m[0], "%d", &n)
+					okLen = n >= 32
+				}
+				r.Check("C27-R3", "api.csrfSecretKey is set by package initialisation ("+FnName(fn)+"), before the server can verify anything", r.P.Pos(st.Pos()), isInit, "a secret created lazily is empty (a known key) for every verification that precedes its creation")
+				r.Check("C27-R3", "api.csrfSecretKey is at least 32 random bytes", r.P.Pos(st.Pos()), okLen, t)
+			}
+		}
+	}
+	r.Check("C27-R3", "api.csrfSecretKey has exactly one writer", "", nW == 1, fmt.Sprint(nW))
 	// R5
 	issueWrites := globalsWrittenFrom(r, "api.newCSRFToken", "api.getCSRFToken")
 	verifyReads := globalsReadFrom(r, "api.verifyCSRFToken")
